@@ -17,6 +17,11 @@ AMBIENT = [
     (r"std::env::(var|vars|args|current_dir|var_os)", "process environment"), (r"std::fs::", "file system"), (r"std::net::", "network"),
     (r"rand::", "random numbers"), (r"std::process::", "process"), (r"std::io::stdio::stdin", "standard input"),
     (r"std::thread::(current|sleep)", "thread identity / timing"),
+    # state kept from one evaluation to the next (repeatability): caches and counters written during evaluation
+    (r"(std::sync::once_lock::OnceLock|core::cell::once::OnceCell|std::sync::OnceLock|core::cell::OnceCell)::<.*>::(set|get_or_init|get_or_try_init|take|try_insert|get_mut_or_init)$", "once-cell cache"),
+    (r"std::sync::poison::(rwlock::RwLock::<.*>::(write|try_write)|mutex::Mutex::<.*>::(lock|try_lock))$", "lock-protected state written during evaluation"),
+    (r"core::sync::atomic::Atomic.*::(store|swap|fetch_\w+|compare_exchange\w*)$", "atomic counter / flag"),
+    (r"std::thread::local::LocalKey::<.*>::(with|set|replace|with_borrow_mut)$", "thread-local state"),
 ]
 # the carve-out the property itself names: the current date is consulted only to place a time of day in a named zone
 AMBIENT_CARVE_OUT = {"dmntk_feel::temporal::date::FeelDate::today_local": "times of day in named zones need the current date (excepted by the property)"}
